@@ -276,6 +276,19 @@ static void run_oracle(const std::string &q, tribool ans, const RCP<const Basic>
         return;
     }
     stat(is_true(ans) ? "answer-true" : "answer-false");
+    if ((q == "rational" || q == "irrational") && is_a<Add>(*e)) {
+        // a definite answer about a sum of two or more of the constants pi, E, GoldenRatio would settle an
+        // open problem (e.g. the irrationality of pi + E): it cannot have been derived
+        int nconst = 0;
+        for (auto &a : e->get_args())
+            if (is_a<Constant>(*a))
+                nconst++;
+        if (nconst >= 2) {
+            oracle = "FAIL:open_problem:is_" + q + " answered " + tri_str(ans) + " for the sum " + e->__str__()
+                     + " of irrational constants (irrational + irrational is not known to be irrational)";
+            return;
+        }
+    }
     // symbols: of the expression and of the statements
     set_basic syms = free_symbols(*e);
     for (auto &s : stmts) {
